@@ -15,6 +15,7 @@ USER_GROUPS = [
     ("overlapping", [["K", "E"], ["E", "G"]]),
     ("three-groups", [["P"], ["G", "A"], ["K", "E", "P", "G"]]),
     ("repeated-members", [["K", "E", "K"], ["g", "G"], ["P", "p", "P", "E"]]),
+    ("duplicate-groups", [["E", "K"], ["G"], ["K", "E"], ["g"], ["P"]]),
     ("container-types", [{"k", "e"}, ("g", "P"), "kE", frozenset(["p"]), {"K": 1, "g": 2}.keys()]),
 ]
 
